@@ -19,13 +19,45 @@ func rootedAt(aps []AP, idx int) (AP, bool) {
 	return AP{}, false
 }
 
+// isCallTo: in is a call to the named function, or to a module function whose every write to its
+// receiver (parameter 0) is made by such a call (a wrapper such as a shared "ready()" preamble
+// around the lazy initialiser). The receiver must be passed on unchanged.
 func isCallTo(in ssa.Instruction, c *Ctx, name string) bool {
+	return isCallToD(in, c, name, 0)
+}
+
+func isCallToD(in ssa.Instruction, c *Ctx, name string, depth int) bool {
 	call, ok := in.(*ssa.Call)
 	if !ok {
 		return false
 	}
 	f := call.Call.StaticCallee()
-	return f != nil && c.short(f) == name
+	if f == nil {
+		return false
+	}
+	if c.short(f) == name {
+		return true
+	}
+	if depth > 2 || !c.inModule(f) || f.Blocks == nil || len(f.Params) == 0 || len(call.Call.Args) == 0 {
+		return false
+	}
+	E := c.Eff()
+	wrote := false
+	for _, b := range f.Blocks {
+		for _, in2 := range b.Instrs {
+			if _, w := rootedAt(E.InstrWrites(f, in2), 0); !w {
+				continue
+			}
+			wrote = true
+			if !isCallToD(in2, c, name, depth+1) {
+				return false
+			}
+			if c2 := in2.(*ssa.Call); len(c2.Call.Args) == 0 || c2.Call.Args[0] != ssa.Value(f.Params[0]) {
+				return false
+			}
+		}
+	}
+	return wrote
 }
 
 // errorReturns lists the return instructions of fn whose last result (type error) is not the nil constant.
@@ -486,6 +518,7 @@ func init() {
 			rp := &RuleResult{Rule: "REJECT-PURE"}
 			ruleRejectPure(ctl, rp, "(*guardctl.B).BadAddWritesFirst", "(*guardctl.B).init")
 			ruleRejectPure(ctl, rp, "(*guardctl.B).GoodAdd", "(*guardctl.B).init")
+			ruleRejectPure(ctl, rp, "(*guardctl.B).GoodAddViaReady", "(*guardctl.B).init")
 			out = append(out, rp)
 			for _, bad := range []string{"(*guardctl.B).BadAddAllowsDuplicates", "(*guardctl.B).BadAddNoCheck"} {
 				mg := &RuleResult{Rule: "MUSTGUARD"}
@@ -494,6 +527,7 @@ func init() {
 			}
 			mg := &RuleResult{Rule: "MUSTGUARD"}
 			ruleMustGuard(ctl, mg, "(*guardctl.B).GoodAdd", "(*guardctl.B).init", "last", "w")
+			ruleMustGuard(ctl, mg, "(*guardctl.B).GoodAddViaReady", "(*guardctl.B).init", "last", "w")
 			ruleMustGuard(ctl, mg, "(*guardctl.B).BadAddWritesFirst", "(*guardctl.B).init", "last", "w")
 			out = append(out, mg)
 			ne := &RuleResult{Rule: "NONEMPTY"}
